@@ -222,6 +222,55 @@ pub struct Stats {
     lookups: usize,
 }
 
+pub const TRACER_BASE: i32 = 0x5eed00;
+
+/// the same module with `i32.const <tracer of the function>; drop` in front of every function body,
+/// so that a body can be recognised wherever it is emitted
+pub fn add_tracers(wasm: &[u8]) -> Vec<u8> {
+    use wasm_encoder::Encode;
+    let mut out = wasm_encoder::Module::new();
+    let mut code = wasm_encoder::CodeSection::new();
+    let mut in_code = false;
+    let mut ordinal = 0;
+    let mut expected = 0;
+    for p in wasmparser::Parser::new(0).parse_all(wasm) {
+        let Ok(p) = p else { return wasm.to_vec() };
+        match &p {
+            wasmparser::Payload::CodeSectionStart { count, .. } => {
+                in_code = true;
+                expected = *count;
+                if expected == 0 {
+                    out.section(&code);
+                }
+            }
+            wasmparser::Payload::CodeSectionEntry(body) => {
+                let Ok(ops) = body.get_operators_reader() else { return wasm.to_vec() };
+                let ops_start = ops.original_position();
+                let r = body.range();
+                let mut nb = wasm[r.start..ops_start].to_vec();
+                nb.push(0x41);
+                (TRACER_BASE + ordinal as i32).encode(&mut nb);
+                nb.push(0x1a);
+                nb.extend_from_slice(&wasm[ops_start..r.end]);
+                code.raw(&nb);
+                ordinal += 1;
+                if ordinal == expected {
+                    out.section(&code);
+                }
+            }
+            _ => {
+                if let Some((id, range)) = p.as_section() {
+                    if id != 10 {
+                        out.section(&wasm_encoder::RawSection { id, data: &wasm[range] });
+                    }
+                }
+            }
+        }
+    }
+    let _ = in_code;
+    out.finish()
+}
+
 pub fn run_wasm(case: &str, wasm: &[u8], gc: bool, stats: &mut Stats) {
     let only = format!("{} {}", gc as u8, out::hex(wasm));
     let Ok(a) = decode::decode(wasm) else { return };
@@ -327,6 +376,7 @@ pub fn run_wasm(case: &str, wasm: &[u8], gc: bool, stats: &mut Stats) {
     // the same ids followed by what the entities *are* (independent of the name section, which is
     // itself written through the emit-time map): the entity at the reported index must be the
     // input entity with that id (ids are input indices)
+    let mut body_fails: Vec<(String, String)> = vec![];
     let mut diff = |what: &str, id: usize, idx: u32, same: Option<bool>| match same {
         Some(true) => {}
         Some(false) => fails.push((format!("C19:emit-map-points-at-a-different-{}", what), format!("{} id {} reported at index {}, but the {} emitted there is a different one", what, id, idx, what))),
@@ -357,7 +407,21 @@ pub fn run_wasm(case: &str, wasm: &[u8], gc: bool, stats: &mut Stats) {
         let sig = |m: &AMod, f: u32| m.func_type(f).and_then(|t| m.types.get(t as usize).cloned());
         let same = if *idx < b.count(Space::Func) { Some(sig(&a, *id as u32).map(|x| Some(x) == sig(&b, *idx)).unwrap_or(true)) } else { None };
         diff("function", *id, *idx, same);
+        // the body emitted at that index must be this function's body: it starts with the function's
+        // tracer constant (inputs of this suite carry one per function)
+        let (ni_in, ni_out) = (a.n_imported(Space::Func) as usize, b.n_imported(Space::Func) as usize);
+        if *id >= ni_in && (*idx as usize) >= ni_out {
+            let want = format!("I32Const/i:{}", (TRACER_BASE as u32).wrapping_add((*id - ni_in) as u32));
+            let input_has = a.code.get(*id - ni_in).and_then(|c| c.ops.first()).map(|o| o.text() == want).unwrap_or(false);
+            if input_has {
+                let got = b.code.get(*idx as usize - ni_out).and_then(|c| c.ops.first()).map(|o| o.text());
+                if got.as_deref() != Some(want.as_str()) {
+                    body_fails.push(("C19:emit-map-points-at-a-different-function-body".to_string(), format!("function id {} reported at index {}, but the body emitted there starts with {:?}, not with this function's tracer {}", id, idx, got, want)));
+                }
+            }
+        }
     }
+    fails.extend(body_fails);
     if fails.is_empty() {
         out::oracle(case, true, "", "");
     } else {
@@ -386,6 +450,7 @@ pub fn main(seed: u64, tier: &str, only: Option<&str>) {
         g.producers = false;
         g.names = false;
         let (wasm, _) = gen::gen_valid(&mut rng, &g);
+        let wasm = add_tracers(&wasm);
         run_wasm(&format!("k{}", case), &wasm, case % 3 == 2, &mut stats);
     }
     out::stat("maps.cases", stats.cases);
